@@ -47,7 +47,12 @@ pub fn generate(r: &mut Prng, seed: u64, run: u64) -> Scenario {
         loop {
             // also ids that have no slot in the id table at all (>= 10^7) — never *added*, only referenced
             if r.chance(1, 6) {
-                return *r.pick(&[10_000_000u32, 10_000_001, 16_777_216, u32::MAX, u32::MAX - 1, 123_456_789]);
+                let v = *r.pick(&[10_000_000u32, 10_000_001, 16_777_216, u32::MAX, u32::MAX - 1, 123_456_789, 0, 0]);
+                // (HP:0000000 is the id of the arena's placeholder entry: absent unless a real term 0 was added)
+                if !facts.has_term(v) {
+                    return v;
+                }
+                continue;
             }
             let v = if r.chance(1, 2) { r.range(1, 300) as u32 } else { r.range(1, 9_999_999) as u32 };
             if !facts.has_term(v) {
